@@ -87,6 +87,19 @@ def run(ctx):
                     rep(f"k_hamiltonian raised {type(ex).__name__}: {ex}"); continue
                 if not np.array_equal(H0, ham.majorana_hamiltonian(l, c, u, J)):
                     rep("Bloch Hamiltonian at k=0 is not the real-space Majorana Hamiltonian of the cell"); continue
+                # couplings of unusual magnitude / nearly equal couplings (exact dyadic numbers): k = 0 must still be the real-space Hamiltonian, entry by entry
+                if trial == 0 and c is not None:
+                    for Jx in (np.array([1.0, 2.0, 3.0]) * 2.0 ** -30, np.array([1.0, 1.0 + 2.0 ** -18, 1.0 - 2.0 ** -18]), np.array([2.0 ** 20, 2.0 ** 20 + 1, 2.0 ** 20 - 2])):
+                        wantx = np.zeros((n, n), dtype=complex)
+                        for (a, b), jj, uu in zip(Ed, Jx[c], u):
+                            wantx[b, a] += 0.5j * jj * uu
+                            wantx[a, b] -= 0.5j * jj * uu
+                        try:
+                            gotx = ps.k_hamiltonian_generator(l, c, u, Jx)(np.array([0.0, 0.0]))
+                        except Exception as ex:
+                            rep(f"k_hamiltonian raised {type(ex).__name__}: {ex} for J = {Jx.tolist()}"); break
+                        if not np.array_equal(gotx, wantx):
+                            rep(f"with couplings J = {Jx.tolist()} the Bloch Hamiltonian at k=0 is not the sum of the J[colour] bond terms (max deviation {np.abs(gotx - wantx).max():.3e})"); break
                 # the same with the bonds written as doubles and the very same arrays used for both Hamiltonians, in both orders of construction
                 uf = u.astype(np.float64); keep = uf.copy()
                 Hkf = ps.k_hamiltonian_generator(l, c, uf, J)
